@@ -17,7 +17,7 @@ RULE = ("Enumeration over every key of the generator registry (71 runnable names
         "Non-trivial: a game with >= 3 distinct values; distinct = (name, n, seed).")
 LEVEL_TEXT = ("The registry and the player-count range are enumerated completely, seeds are generated; class membership is decided by "
               "textbook predicates in exact arithmetic. A for-all over seeds is explored, not proved.")
-LEVEL_NOTE = "Trusted: vp/oracles.py predicates. n in 3..6 quick (7, 8 thorough; oxs / coverage are exponential in n and capped at 6 / 7)."
+LEVEL_NOTE = "Trusted: vp/oracles.py predicates; the pristine-process helper (os.fork before any generator call). n in 3..6 quick (7, 8 thorough; oxs / coverage are exponential in n and capped at 6 / 7)."
 TECHNIQUE = "property-based testing: registry x n enumeration with Hypothesis-generated seeds vs exact class predicates and a determinism (same-seed) relation"
 ASSUMPTIONS = ["'convex' is not exercised (external dependency absent)", "float-valued families: superadditivity/monotonicity judged with 1e-9*scale slack"]
 
